@@ -100,6 +100,20 @@ def run(ctx) -> None:
                     bad.add(f"no -M flag in {av}"[:80])
         ctx.check(bool(runs) and not bad, "C15.B5.never-intel-syntax", f"binary route, style={st}", ";".join(sorted(bad))[:200],
                   "the -M argument is a literal that objdump does not read as an Intel-syntax selector")
+    # B6: perform_matching() called again on the same MasterOfPuppets runs the same command again
+    from ..matchflow import match_scenarios
+    for cf in ({"sections": [".plt", ".text"]}, {}):
+        for sc in match_scenarios(I, file_types=("binary",), return_modes=("bool",), search_modes=("first_find",), only_addrs=(False,),
+                                  configs=(cf,), repeat=2):
+            if sc.path.kind != "return":
+                continue
+            argvs = []
+            for e in sc.path.events:
+                if e.kind == "extern_call" and e.name.endswith("subprocess.run"):
+                    a = e.args[0] if e.args else e.kwargs.get("args")
+                    argvs.append(I.expr_of(a) if not hasattr(a, "items") else "[" + ", ".join(I.expr_of(x) for x in a.items) + "]")
+            ctx.check(len(argvs) == 2 and argvs[0] == argvs[1], "C15.B6.same-command-on-every-run", f"perform_matching x2, sections={cf.get('sections')}",
+                      f"{argvs}"[:200], "a second perform_matching() on the same object disassembles with the same command line")
     # B4: the syntax flag is the current rule's (att unless the rule says otherwise), whatever ran before
     for prev in ({"config": {"style": "intel"}, "file_type": "binary"}, {"config": {"style": "intel"}, "file_type": "assembly"}):
         nxt = {"config": {}, "file_type": "binary"}
